@@ -21,7 +21,7 @@ import (
 func TestMain(m *testing.M) { hx.Main(m) }
 
 type spec struct {
-	Kind  string `json:"kind"` // fanout | pipeline | reusebuf | outcome | rawfan | peerloss | ownbody | resize | stallloss | relay | reqretain | newmsg
+	Kind  string `json:"kind"` // fanout | pipeline | reusebuf | outcome | rawfan | peerloss | ownbody | resize | stallloss | relay | cancelsend | reqretain | newmsg
 	Pat   string `json:"pat,omitempty"`
 	Tran  string `json:"tran,omitempty"`
 	N     int    `json:"n,omitempty"`
@@ -94,6 +94,11 @@ func TestC17(t *testing.T) {
 				cases = append(cases, mon.CaseSpec{Name: "relay/" + p + "/" + tr, Spec: spec{Kind: "relay", Pat: p, Tran: tr, N: 2 + rnd.Intn(2), Yield: rnd.Intn(2) == 0}})
 			}
 		}
+		for _, p := range hx.AllProtos {
+			// two of the six disturbances per round, every one within three rounds, then the other mode
+			mode := []string{"nopeer", "busy"}[(rep/3)%2]
+			cases = append(cases, mon.CaseSpec{Name: "cancelsend/" + p + "/" + mode, Spec: spec{Kind: "cancelsend", Pat: p, Tran: mode, N: 3 << uint((2*rep)%6), Yield: rnd.Intn(2) == 0}})
+		}
 		cases = append(cases, mon.CaseSpec{Name: "reqretain", Spec: spec{Kind: "reqretain", N: 3 + rnd.Intn(3)}})
 		cases = append(cases, mon.CaseSpec{Name: "newmsg", Spec: spec{Kind: "newmsg"}})
 	}
@@ -125,6 +130,8 @@ func TestC17(t *testing.T) {
 			runStallLoss(c, sp)
 		case "relay":
 			runRelay(c, sp)
+		case "cancelsend":
+			runCancelSend(c, sp)
 		case "reqretain":
 			runReqRetain(c, sp)
 		case "newmsg":
